@@ -1,6 +1,6 @@
 (* Property C04 — a query's answer does not depend on what was evaluated before it.
    Only statements, `exact`, and Print Assumptions. *)
-From EQL Require Import Base Values Syntax Spec EvalPure Lazy Lazy_Facts History_Facts.
+From EQL Require Import Base Values Syntax Spec Generated EvalPure Lazy Lazy_Facts History_Facts Dedup Dedup_Facts.
 
 (* ONE variable, any pool of queries over it, ANY finite history of operations - evaluate fully, take k results then close,
    evaluate while a user predicate raises at its j-th call, in any number and order: a query evaluated afterwards returns
@@ -42,3 +42,14 @@ Example C04_nonvacuous :
   lafter pool (fresh d) ops = {| mat := [7; 2; 5]; rem := [2; 8] |} /\
   fst (full (lq_q (nthq pool 0)) (lafter pool (fresh d) ops)) = [7; 5; 8] /\ fst (full (lq_q (nthq pool 0)) (fresh d)) = [7; 5; 8].
 Proof. cbv zeta. split; [|split]; vm_compute; reflexivity. Qed.
+
+(* the operators' DE-DUPLICATION state (Dedup.v): any history of evaluations of one query object - each consumed completely or
+   abandoned / aborted after n results - whatever state an evaluation would leave in the seen sets: every evaluation starts from the
+   empty state and returns (a prefix of) what the query returns on its own.  That An.evaluate / The.evaluate reset the state in a
+   `finally` clause around the whole evaluation is read from the source by the translator on every run
+   (Generated.evaluation_resets_dedup_state): the theorem stops compiling if the reset becomes conditional *)
+Theorem C04_dedup_state_reset : forall h dom leftover sel c steps i,
+  history_rows h dom leftover sel c steps i DL =
+  map (fun k => match k with None => run_queryD h dom sel c | Some n => firstn n (run_queryD h dom sel c) end) steps.
+Proof. exact history_rows_independent. Qed.
+Print Assumptions C04_dedup_state_reset.
